@@ -140,6 +140,12 @@ def cross(ck, q, *names):
             book_gen(ck, "x_big_volumes", cfg=GEN, Ops=["cap", "cancel", "modify"], Prices=[10, 11], Vols=[1, 2], Kinds=["L", "M"], ModPrices=[-1, 11],
                      ModVols=["smaller", "larger"], MaxOrders=3, MaxOps=4 if q else 5, VolCap=3, vol_scale=1300000000,
                      need=("has_trade", "op_modify", "resting_partially_filled_or_resized"), timeout=300 if q else 1500)
+            # volume CHANGES above 2^31 next to another order at the same price (one unit = 10^8: volumes 1 and 30 units, a change of
+            # 29 units = 2.9 * 10^9; per-side totals and traded volume stay below 42 units = 4.2 * 10^9 < 2^32): a pure reduction keeps
+            # its place, an increase loses it - a later one-unit aggressor shows which order is at the front
+            book_gen(ck, "x_big_volume_changes", cfg=GEN, Ops=["cap", "modify"], Prices=[10], Vols=[1, 30], Kinds=["L"], ModPrices=[-1],
+                     ModVols=["min", "max", "smaller"], MaxOrders=3 if q else 4, MaxOps=4 if q else 5, VolCap=42, vol_scale=100000000,
+                     need=("has_trade", "op_modify"), timeout=300 if q else 1500)
         elif nm == "top_price":
             # the last grid price below 2^32 - 1 for a tick size that does not divide it (tick 2: 4294967294) as a limit price of
             # placements and modifications, next to market orders (which carry 2^32 - 1)
